@@ -128,6 +128,20 @@ theorem race_link_exit (kill : Bool) (ops : List Op) (a c k n : Nat)
       Status.stopping.toNat ≤ ((raceRun true kill (steps true init ops) a c a k n).1.t.status c).toNat)) := by
   simpa using race_link true kill _ (invariant true ops) a c k n hdone
 
+/-- Race clause, general form: the link of an orphan `c` (a fresh `spawn_linked` child, an unlinked actor)
+under ANY actor `d` of the exiting subtree, at ANY position `k` of `a`'s exit: the link is refused, or
+`c` has been sent the kill signal by the end of the exit (or is the exiting actor itself / already
+stopping).  Reason: at every moment every actor of the subtree is either already closed or still ahead
+of the worklist (`Tree.Cover`). -/
+theorem race_link_anywhere (kill : Bool) (ops : List Op) (a c d k n : Nat)
+    (hd : Desc (steps true init ops) a d)
+    (horph : (xrun true a k (xinit kill a (steps true init ops))).t.sup c = none)
+    (hdone : (raceRun true kill (steps true init ops) a c d k n).1.pc = .done) :
+    (raceRun true kill (steps true init ops) a c d k n).2 = false ∨
+    (raceRun true kill (steps true init ops) a c d k n).1.t.killed c = true ∨
+    Status.stopping.toNat ≤ ((raceRun true kill (steps true init ops) a c d k n).1.t.status c).toNat := by
+  simpa using race_link_any true kill _ (invariant true ops) a c d k n hd horph hdone
+
 /-- The exit machine used in the race clause computes exactly `exit` (preceded by `terminate` on the
 kill path), so the clause is about the same operation as (6). -/
 theorem exit_machine_complete (fixed kill : Bool) (ops : List Op) (a : Nat) :
@@ -191,6 +205,13 @@ example : let s := steps true init [.spawn, .spawn, .spawn, .setStatus 0 .runnin
       .setStatus 2 .running, .link 1 0, .link 2 1, .setStatus 1 .draining, .exit 0]
     s.killed 1 = true ∧ s.killed 2 = true ∧ s.status 0 = .stopped ∧ s.sup 2 = none ∧ s.kids 1 = none := by decide
 
+/-- linking an orphan under a grandchild in the middle of the exit (after the root and the child have
+been visited, before the grandchild is): accepted, and the orphan is killed with the rest -/
+example : let s := steps true init [.spawn, .spawn, .spawn, .spawn, .setStatus 0 .running, .setStatus 1 .running,
+      .setStatus 2 .running, .setStatus 3 .running, .link 1 0, .link 2 1]
+    (raceRun true false s 0 3 2 3 9).2 = true ∧ (raceRun true false s 0 3 2 3 9).1.t.killed 3 = true ∧
+      (raceRun true false s 0 3 2 4 9).2 = false ∧ (raceRun true false s 0 3 2 3 9).1.pc = .done := by decide
+
 /-- a link that arrives after the first exit step is refused; one that arrives before is killed -/
 example : let s := steps true init [.spawn, .spawn, .setStatus 0 .running, .setStatus 1 .running]
     (raceRun true false s 0 1 0 1 9).2 = false ∧ (raceRun true false s 0 1 0 0 9).2 = true ∧
@@ -211,6 +232,7 @@ end C05
 #print axioms C05.exit_skips_draining_pinned
 #print axioms C05.exit_kills_subtree_partial
 #print axioms C05.race_link_exit
+#print axioms C05.race_link_anywhere
 #print axioms C05.exit_machine_complete
 #print axioms C05.quiescent_step_ok
 #print axioms C05.quiescent_exit_takes_subtree
